@@ -154,6 +154,11 @@ def build_crystal(rec):
                 warm()
             except Exception:        # the earlier use only warms the object up; what it returns is judged on unswitched crystals
                 pass
+        # a request that is refused (a misspelt choice) leaves the object as it was; the caller carries on with it
+        try:
+            cr.choose_trigonal_lattice({"R": "r", "H": "hex"}.get(rec["choice"], "r"))
+        except Exception:
+            pass
         cr.choose_trigonal_lattice(rec["choice"])
         return cr
     sg = SpaceGroup(rec["number"], choice=rec["choice"]) if rec["choice"] else SpaceGroup(rec["number"])
